@@ -350,6 +350,34 @@ func runC06(b *runner.Batch) {
 			doTick(ep, e.pickAlpha(8), nil)
 		}
 	}
+	// a subscriber that is gone (destroyed after it subscribed) cannot accept the call: from then on no tick may
+	// succeed, and nothing may change (seeded change C06-6: "log and go on" for a subscriber that cannot be called)
+	if b.NViolations() == 0 && b.Index%3 == 0 {
+		for _, sub := range e.m.subs {
+			if _, isProbe := e.pid[sub]; !isProbe {
+				continue
+			}
+			r := e.w.Invoke(nil, sub, "destroy")
+			b.Tx(1)
+			if !r.Halted() {
+				b.Inconclusive("probe could not be destroyed: " + r.Fault)
+				break
+			}
+			e.m.reject[sub] = true
+			var rest []util.Uint160
+			for _, p := range e.probes {
+				if p != sub {
+					rest = append(rest, p)
+				}
+			}
+			e.probes = rest
+			doTick(e.m.epoch+1, 0, nil)
+			doTick(e.m.epoch+3, 0, nil)
+			e.checkNetmapState(nil)
+			b.Hit("tick-refused:subscriber-destroyed")
+			break
+		}
+	}
 	if b.Index < 2 {
 		h := b.HistoryFn()
 		if len(h) > 10 {
